@@ -97,4 +97,14 @@ theorem uint64_wraps_back (pool : Pool) (ctx : Option Field) (i : Int) (h : inI6
     toValue pool ctx (.u64 (wrapU64 i)) = some (.int i) := by
   simp [toValue, wrapI64_wrapU64 i h]
 
+/-- What a `float` field loses: a double `b` is sent as the nearest binary32 value
+    (`F32.ofF64`: ties to even, overflow to ±∞, underflow to ±0) and comes back as that value widened;
+    it survives exactly when `F32.exact b` (then `defectScalar` raises no `f32` defect). -/
+theorem float_field_narrows (P : Prims) (lossy : Bool) (pool : Pool) (ctx : Option Field) (b : Nat)
+    (h : F64.isNaN b = false) :
+    convScalar P lossy (.float b) .float = some (.f32 (F32.ofF64 b)) ∧
+    toValue pool ctx (.f32 (F32.ofF64 b)) = some (.float (F32.toF64 (F32.ofF64 b))) := by
+  refine ⟨by simp [convScalar], ?_⟩
+  simp [toValue, F32.ofF64_not_nan b h]
+
 end C26
